@@ -15,7 +15,10 @@
   for every position on which no int16 conversion that matters changes a value (`noInt16Wrap`,
   decidable; measured true on every generated position), the tuner's evaluation differs from the
   engine's integer evaluation by at most 4799/2400 = 1 + 2399/2400 < 2 < 2.25 centipawns, with the
-  white-relative sign.  The float64 rounding residue (measured ≈ 1e-12 cp) is outside the theorem.
+  white-relative sign.  The float64 rounding residue (measured ≈ 1e-12 cp) is outside THAT theorem.
+  ADDED (last section of the file, `float_vs_int`): the float64 gap is closed over an executable IEEE-754
+  binary64 model (Model/F64.lean, Model/EvalF.lean) that the tunereval harness compares with the real
+  `Eval[float64]` bit for bit; `math.Exp` stays a parameter (inside the sigmoid `σF`, hypothesis `TableNear σF`).
 
   Part (b), the parameter vector, is proved in full for the reflection walkers of
   tools/tuner/tuning/vector.go as modelled in Model/TunerVector.lean, for EVERY struct value without
